@@ -28,8 +28,12 @@ IDENT = re.compile(r"^[A-Za-z_][A-Za-z0-9_']*\Z")
 for i in range(N):
     names = [name() for _ in range(R.choice([1, 1, 1, 2, 3]))]
     doc = R.choice(DOCS)
-    for spelling in ('quoted', 'bare'):
-        if spelling == 'bare':
+    for spelling in ('quoted', 'bare', 'raw'):
+        if spelling == 'raw':
+            # a segment used verbatim: an identifier (possibly an existing name) plus a suffix; must be refused or read back exactly
+            names = [R.choice(['x', 'v', 'ab', 'if', 'a_b']) + R.choice(['\n', ' ', '\t', '-', "'", '\r', '+', '\n\n', '$', '/']) for _ in names]
+            path = '.'.join(names)
+        elif spelling == 'bare':
             if not all(IDENT.match(n) for n in names): continue
             path = '.'.join(names)
         else:
@@ -40,6 +44,7 @@ for i in range(N):
         try:
             out1 = set_value(source=parse(doc), npath=path, value='7')
         except Exception as e:
+            if spelling == 'raw' and isinstance(e, ValueError): continue      # malformed path rejected: fine
             viol.append(dict(case, what='set refused an addressable name: %s: %s' % (type(e).__name__, e))); continue
         t1, d1 = tree_of(out1)
         if t1 is None:
